@@ -393,3 +393,14 @@ Example filter_nonvacuous :
 Proof. split; [exact exf_wf|]. split; [reflexivity|]. split; [repeat constructor|]. split; [exact exf_items_wf|].
   split; [vm_compute; reflexivity|]. split; [vm_compute; reflexivity|]. split; [vm_compute; reflexivity|].
   eexists. split; [vm_compute; reflexivity|reflexivity]. Qed.
+
+(* every output packet is 188 bytes long and begins with the header of the input packet at the same position *)
+Lemma spec_repack_shape : forall hdrs data, Forall (fun h => len h <= 188) hdrs ->
+  (length (spec_repack hdrs data) <= length hdrs)%nat /\
+  Forall2 (fun h p => len p = 188 /\ takeN (len h) p = h) (firstn (length (spec_repack hdrs data)) hdrs) (spec_repack hdrs data).
+Proof. induction hdrs as [|h t IH]; intros data H; [split; [cbn; lia|constructor]|].
+  inversion H as [|? ? Hl Ht]; subst. cbn [spec_repack]. destruct data as [|b d']; [split; [cbn; lia|constructor]|].
+  set (data := b :: d'). set (room := 188 - len h). destruct (IH (dropN room data) Ht) as [I1 I2].
+  cbn [length firstn]. split; [lia|]. constructor; [|exact I2]. split.
+  - rewrite !len_app, len_repeatN, len_takeN. unfold room. lia.
+  - apply takeN_app. reflexivity. Qed.
